@@ -166,6 +166,7 @@ def check(ctx):
            [atoms[2], {"k": "op", "s": "/"}, {"k": "lp"}, atoms[1], {"k": "op", "s": "-"}]]
     idents = [[{"k": "id", "s": "foo"}], [atoms[1], {"k": "op", "s": "+"}, {"k": "id", "s": "median"}],
               [{"k": "op", "s": "-"}, {"k": "id", "s": "stdev"}, {"k": "op", "s": "*"}, atoms[2]]]
+    recent = []
     for k in range(ctx.pick(2500, 40000)):
         if k % 35 == 0:
             s.reset()
@@ -176,7 +177,14 @@ def check(ctx):
         elif c < 0.2:
             s.eval(r.choice(idents), stats)
         else:
-            s.eval(rand_expr(r, r.choice([1, 2, 3, 3, 4]), atoms), stats, compact=r.random() < 0.3)
+            ex = rand_expr(r, r.choice([1, 2, 3, 3, 4]), atoms)
+            s.eval(ex, stats, compact=r.random() < 0.3)
+            recent.append((ex, stats))
+            del recent[:-12]
+        if recent and r.random() < 0.3:
+            # A ... B ... A again: an earlier expression re-evaluated later, with the same and with other statistics
+            ex, st0 = r.choice(recent)
+            s.eval(ex, st0 if r.random() < 0.5 else stats)
     # validator: all token strings of length <= 3 (quick) / 4 over a class-covering alphabet + random longer ones
     import itertools
     alpha = ["1", "mean", "+", "(", "", "mean-std", "Mean", "2.5", "x"]
